@@ -272,6 +272,29 @@ impl Tree {
         }
     }
 
+    /// the same tree for a note that moves from directory `from` to directory `to`
+    pub fn relocate(&self, from: &str, to: &str) -> Tree {
+        let relocate_all = |inlines: &Vec<GraphInline>| {
+            inlines
+                .iter()
+                .map(|inline| inline.relocate(from, to))
+                .collect_vec()
+        };
+        Tree {
+            id: self.id,
+            node: match &self.node {
+                Node::Section(inlines) => Node::Section(relocate_all(inlines)),
+                Node::Leaf(inlines) => Node::Leaf(relocate_all(inlines)),
+                _ => self.node.clone(),
+            },
+            children: self
+                .children
+                .iter()
+                .map(|child| child.relocate(from, to))
+                .collect(),
+        }
+    }
+
     /// `relative_to` is the directory of the note this tree belongs to
     pub fn change_key(&self, target_key: &Key, updated_key: &Key, relative_to: &str) -> Tree {
         Tree {
